@@ -34,6 +34,7 @@ RULE = ("exhaustive over all multisets of <= 4 ballots (every partial ranking, b
         "must not change) and a positive allowed gap agap (1 in 4; 1e-9 .. 1e4; the driver evaluates the same float test; "
         "the branch tag records whether the early exit changed the result); non-trivial = >= 3 candidates (empty results included: they exercise the 'audit not possible' exits); distinct = distinct canonical input")
 EXHAUSTIVE = {"quick": False, "thorough": False}
+RULE += "; option stream (n/20 more profiles, own generator, OPTIONS_AUDIT.md): raire_utils.Contest built without the order argument"
 CONTEST = "1"
 FUEL = 2000000
 TOL = 1e-9
